@@ -405,6 +405,57 @@ func stmtInlineSig(cpkg *packages.Package, cfile *ast.File, call *ast.CallExpr, 
 	if innermost == nil {
 		innermost = cscope
 	}
+	// a receiver / parameter whose argument is a plain local variable that never changes, and that the helper
+	// never assigns, is not copied into a fresh variable: the helper's name for it is replaced by the caller's
+	// (same value throughout; it keeps "v.f" a field selection of the caller's own variable)
+	direct := map[types.Object]string{}
+	{
+		var callerDecl *ast.FuncDecl
+		for _, nd := range path {
+			if fd, ok := nd.(*ast.FuncDecl); ok {
+				callerDecl = fd
+			}
+		}
+		consider := func(hIdent *ast.Ident, arg ast.Expr, want types.Type) {
+			if hIdent == nil || hIdent.Name == "_" || callerDecl == nil {
+				return
+			}
+			hobj := hinfo.Defs[hIdent]
+			aid, ok := ast.Unparen(arg).(*ast.Ident)
+			if !ok || hobj == nil {
+				return
+			}
+			cobj, ok := cinfo.Uses[aid].(*types.Var)
+			if !ok || cobj.IsField() || cobj.Parent() == nil || cobj.Parent() == cpkg.Types.Scope() {
+				return
+			}
+			if !types.Identical(cinfo.TypeOf(aid), want) {
+				return
+			}
+			if !neverReassigned(cinfo, callerDecl, cobj) || !neverReassigned(hinfo, hdecl, hobj) {
+				return
+			}
+			direct[hobj] = aid.Name
+		}
+		if recv := sig.Recv(); recv != nil && hdecl.Recv != nil && len(hdecl.Recv.List) == 1 && len(hdecl.Recv.List[0].Names) == 1 {
+			if sel, ok := call.Fun.(*ast.SelectorExpr); ok {
+				consider(hdecl.Recv.List[0].Names[0], sel.X, recv.Type())
+			}
+		}
+		pi := 0
+		for _, f := range hdecl.Type.Params.List {
+			if len(f.Names) == 0 {
+				pi++
+				continue
+			}
+			for _, nm := range f.Names {
+				if pi < len(call.Args) && !sig.Variadic() {
+					consider(nm, call.Args[pi], sig.Params().At(pi).Type())
+				}
+				pi++
+			}
+		}
+	}
 	var capErr error
 	ast.Inspect(hdecl.Body, func(n ast.Node) bool {
 		switch x := n.(type) {
@@ -436,6 +487,10 @@ func stmtInlineSig(cpkg *packages.Package, cfile *ast.File, call *ast.CallExpr, 
 					eds = append(eds, textEdit{off(x.Pos()), off(x.End()), "(" + typeStr(ta) + ")"})
 					return true
 				}
+			}
+			if dn, ok := direct[obj]; ok {
+				eds = append(eds, textEdit{off(x.Pos()), off(x.End()), dn})
+				return true
 			}
 			if local(obj) {
 				eds = append(eds, textEdit{off(x.Pos()), off(x.End()), x.Name + suffix})
@@ -503,7 +558,9 @@ func stmtInlineSig(cpkg *packages.Package, cfile *ast.File, call *ast.CallExpr, 
 				return nil, fmt.Errorf("receiver conversion")
 			}
 		}
-		binds = append(binds, binding{rname + suffix, typeStr(recv.Type()), arg})
+		if _, isDirect := direct[hinfo.Defs[hdecl.Recv.List[0].Names[0]]]; !(len(hdecl.Recv.List) == 1 && len(hdecl.Recv.List[0].Names) == 1 && isDirect) {
+			binds = append(binds, binding{rname + suffix, typeStr(recv.Type()), arg})
+		}
 	}
 	pi := 0
 	for _, f := range hdecl.Type.Params.List {
@@ -519,7 +576,9 @@ func stmtInlineSig(cpkg *packages.Package, cfile *ast.File, call *ast.CallExpr, 
 			if n == "_" {
 				n = fmt.Sprintf("unused%d", pi)
 			}
-			binds = append(binds, binding{n + suffix, typeStr(sig.Params().At(pi).Type()), srcOf(call.Args[pi])})
+			if _, isDirect := direct[hinfo.Defs[nm]]; !isDirect || nm.Name == "_" {
+				binds = append(binds, binding{n + suffix, typeStr(sig.Params().At(pi).Type()), srcOf(call.Args[pi])})
+			}
 			pi++
 		}
 	}
